@@ -862,3 +862,6 @@ def _pymbolic_only_syntax(g):
     if re.search(r"(\*\*|<<|>>|//|<=|>=|==|!=|[-+*/%&|^~<>])\s*not\b", g):
         return True      # 'a - not b': Python wants parentheses there, pymbolic's grammar does not
     return any(t in g for t in (":", "@", "$")) or g.strip().endswith(",")
+
+
+RULE = RULE + '  Later additions: operator / prefix / bracket towers as strings; trailing commas; equal literals of two kinds in both orders; a parser re-entered from its terminal hook; hundreds of refusals in a row; interned Python ASTs; refused imports before every judged import.'
